@@ -24,6 +24,8 @@
 (*  [k|->"ann", t |-> T, cs |-> <<cond..>>]      Annotated[T, c1..cn]      *)
 (*  [k|->"sub", name |-> s, base |-> T]          class S(base)             *)
 (*  [k|->"tvar", var |-> "bound"|"constr"|"free", ts |-> <<T..>>]          *)
+(*  [k|->"ndarray", e |-> T]              numpy.ndarray[Any, dtype[..]] of element type T      *)
+(*       typed value: [k |-> "ndarray", shape |-> <<n..>>, xs |-> <<flat elements>>]        *)
 (*  [k|->"tagged", vars |-> <<cls..>>, tag |-> field name, tags |->        *)
 (*        <<atom..>>, lay |-> "int"|"ext"|"adj", tk |-> s, ck |-> s]       *)
 (*  [k|->"cls", name |-> s, fs |-> <<field..>>, inf |-> <<"struct","tuple">>,*)
@@ -106,18 +108,28 @@ ScalarImg(tk, v) ==
 (* evaluate left to right and stop at the first decisive operand.          *)
 B3(b) == IF b THEN "T" ELSE "F"
 
-HasLen(x) == x.k \in {"str", "bytes", "seq", "set", "map"}
+HasLen(x) == x.k \in {"str", "bytes", "seq", "set", "map"} \/ (x.k = "ndarray" /\ x.shape # <<>>)
 LenOf(x) ==
   CASE x.k \in {"str", "bytes"} -> Fact(x.s).len
     [] x.k = "seq" -> Len(x.xs)
     [] x.k = "set" -> Cardinality(x.es)
     [] x.k = "map" -> Len(x.ps)
+    [] x.k = "ndarray" -> x.shape[1]
+
+(* numpy broadcasting of shape a to shape b: aligned from the right, each axis equal or one of them 1 *)
+Broadcastable(a, b) ==
+  LET n == IF Len(a) < Len(b) THEN Len(a) ELSE Len(b) IN
+  \A i \in 1..n : LET x == a[Len(a) - i + 1]  y == b[Len(b) - i + 1] IN x = y \/ x = 1 \/ y = 1
 
 RECURSIVE Holds(_, _), HoldsAll(_, _, _), HoldsAny(_, _, _)
 Holds(c, x) ==
   CASE x.k = "sub" -> Holds(c, x.x)        \* an instance of a subclass of a basic type behaves as its base value
+    [] x.k = "ndarray" /\ c.k \in {"pos", "neg", "nonneg", "nonpos", "ge", "le", "finite", "even"} ->
+         \* numpy compares element-wise; the truth value of the result is defined for one element only
+         (IF Len(x.xs) = 1 /\ c.k # "finite" /\ c.k # "even" THEN Holds(c, x.xs[1]) ELSE IF Len(x.xs) = 1 THEN "D3" ELSE "X")
     [] x.k = "bigint" /\ c.k \notin {"utrue", "ufalse", "uraise", "not", "and", "or"} ->
-         (IF c.k \in {"pos", "nonneg", "finite"} THEN "T" ELSE IF c.k \in {"neg", "nonpos", "even"} THEN (IF c.k = "even" THEN "T" ELSE "F")
+         (IF c.k = "finite" THEN "X"          \* math.isfinite(10 ** 400) raises OverflowError
+          ELSE IF c.k \in {"pos", "nonneg"} THEN "T" ELSE IF c.k \in {"neg", "nonpos", "even"} THEN (IF c.k = "even" THEN "T" ELSE "F")
           ELSE IF c.k = "ge" THEN "T" ELSE IF c.k = "le" THEN "F" ELSE "X")
     [] c.k = "pos"    -> IF IsReal(x) THEN B3(NumLt(Fin(Zero), NumNum(x))) ELSE "X"
     [] c.k = "neg"    -> IF IsReal(x) THEN B3(NumLt(NumNum(x), Fin(Zero))) ELSE "X"
@@ -130,6 +142,8 @@ Holds(c, x) ==
     [] c.k = "le" -> IF IsReal(x) THEN B3(NumLeq(NumNum(x), Fin(c.q))) ELSE "X"
     [] c.k = "lenge" -> IF HasLen(x) THEN B3(LenOf(x) >= c.n) ELSE "X"
     [] c.k = "lenle" -> IF HasLen(x) THEN B3(LenOf(x) <= c.n) ELSE "X"
+    [] c.k = "shape"  -> IF x.k = "ndarray" THEN B3(x.shape = c.shape) ELSE "X"        \* no .shape attribute: raises
+    [] c.k = "bcast"  -> IF x.k = "ndarray" THEN B3(Broadcastable(x.shape, c.shape)) ELSE "X"
     [] c.k = "utrue"  -> "T"
     [] c.k = "ufalse" -> "F"
     [] c.k = "uraise" -> "X"
@@ -209,6 +223,17 @@ TagVariant(T, tag) ==
 
 -----------------------------------------------------------------------------
 (* The semantics proper.                                                   *)
+(* n-d arrays: nested sequences, rectangular; a non-sequence is a 0-d array *)
+RECURSIVE NdShape(_), NdFlat(_)
+NdShape(v) ==     \* <<-1>> when ragged
+  IF v.k # "seq" THEN <<>>
+  ELSE IF v.xs = <<>> THEN <<0>>
+  ELSE LET subs == [i \in DOMAIN v.xs |-> NdShape(v.xs[i])] IN
+       IF (\E i \in DOMAIN subs : subs[i] = <<-1>>) \/ (\E i \in DOMAIN subs : subs[i] # subs[1]) THEN <<-1>>
+       ELSE <<Len(v.xs)>> \o subs[1]
+NdFlat(v) == IF v.k # "seq" THEN <<v>>
+             ELSE IF v.xs = <<>> THEN <<>> ELSE NdFlat(v.xs[1]) \o NdFlat([v EXCEPT !.xs = Tail(v.xs)])
+
 RECURSIVE Verdict(_, _), Img(_, _), UnionPick(_, _, _), ClsVerdict(_, _), ClsImg(_, _),
           FieldVals(_, _, _)
 
@@ -263,7 +288,8 @@ Verdict(T, v) ==
     [] T.k = "ann" ->
          LET r == Verdict(T.t, v) IN
          IF r # "A" THEN r
-         ELSE IF HoldsAll(T.cs, Img(T.t, v), 1) = "T" THEN "A" ELSE "R"
+         ELSE LET h == HoldsAll(T.cs, Img(T.t, v), 1) IN
+              IF h = "T" THEN "A" ELSE IF h = "D3" THEN "D" ELSE "R"
     [] T.k = "sub" -> Verdict(T.base, v)
     [] T.k = "tvar" ->
          (CASE T.var = "free"   -> "A"
@@ -275,6 +301,14 @@ Verdict(T, v) ==
          ELSE LET i == TagVariant(T, te.tag) IN
               IF i = 0 THEN "R" ELSE IF i = -1 THEN "D" ELSE Verdict(T.vars[i], te.body)
     [] T.k = "cls" -> ClsVerdict(T, v)
+    [] T.k = "ndarray" ->
+         LET flat == NdFlat(v)
+             r == KSeq([i \in DOMAIN flat |-> Verdict(T.e, flat[i])]) IN
+         IF r = "R" THEN "R"
+         ELSE IF NdShape(v) = <<-1>> THEN "R"                       \* ragged
+         ELSE IF T.e.k \notin {"int", "float", "bool"} \/ (\E i \in DOMAIN flat : flat[i].k = "bigint")
+              THEN "D"        \* what numpy makes of other element kinds (and of integers beyond int64) is left open
+         ELSE r
 
 (* values the fields of an instance take: bound ones converted, the others defaulted *)
 FieldVals(C, v, b) ==
@@ -353,6 +387,8 @@ Img(T, v) ==
     [] T.k = "tagged" ->
          LET te == TagExtract(T, v) IN Img(T.vars[TagVariant(T, te.tag)], te.body)
     [] T.k = "cls" -> MkInst(T, ClsImg(T, v))
+    [] T.k = "ndarray" -> LET flat == NdFlat(v) IN
+                          [k |-> "ndarray", shape |-> NdShape(v), xs |-> [i \in DOMAIN flat |-> Img(T.e, flat[i])]]
 
 -----------------------------------------------------------------------------
 (* Serialisation, relationally: SerOK(T, x, d) - d is an allowed into_data *)
@@ -392,6 +428,8 @@ SerOK(T, x, d) ==
          /\ \A i \in DOMAIN x.ps : x.ps[i][1].k = "str" /\ \E j \in DOMAIN T.fs : T.fs[j][1] = x.ps[i][1].s
          /\ \A i \in DOMAIN x.ps : d.ps[i][1] = x.ps[i][1] /\ SerOK(ftype(x.ps[i][1].s), x.ps[i][2], d.ps[i][2])
     [] T.k = "union" -> \E i \in DOMAIN T.alts : SerOK(T.alts[i], x, d)
+    [] T.k = "ndarray" -> x.k = "ndarray" /\ NdShape(d) = x.shape /\ Len(NdFlat(d)) = Len(x.xs)
+                          /\ \A i \in DOMAIN x.xs : SerOK(T.e, x.xs[i], NdFlat(d)[i])
     [] T.k = "enum"  -> x.k = "enum" /\ x.e = T.name /\ x.i \in DOMAIN T.vs /\ d = T.vs[x.i]
     [] T.k = "ann"   -> SerOK(T.t, x, d)
     [] T.k = "sub"   -> x.k = "sub" /\ SerOK(T.base, x.x, d)
@@ -427,7 +465,7 @@ SerOK(T, x, d) ==
 (* fields can be re-created from a default.                                                  *)
 RECURSIVE OutEnabled(_)
 OutEnabled(T) ==
-  CASE T.k \in ScalarKinds \cup {"lit", "enum"} -> TRUE
+  CASE T.k \in ScalarKinds \cup {"lit", "enum", "ndarray"} -> TRUE
     [] T.k \in SeqKinds -> OutEnabled(T.e)
     [] T.k = "tuple" -> \A i \in DOMAIN T.es : OutEnabled(T.es[i])
     [] T.k \in {"dict", "defaultdict", "ordereddict"} -> OutEnabled(T.kt) /\ OutEnabled(T.vt)
@@ -450,7 +488,7 @@ OutEnabled(T) ==
 (* <<class name, field name>> of every field excluded from output anywhere inside T *)
 RECURSIVE ExSet(_)
 ExSet(T) ==
-  CASE T.k \in ScalarKinds \cup {"lit", "enum"} -> {}
+  CASE T.k \in ScalarKinds \cup {"lit", "enum", "ndarray"} -> {}
     [] T.k \in SeqKinds -> ExSet(T.e)
     [] T.k = "tuple" -> UNION {ExSet(T.es[i]) : i \in DOMAIN T.es}
     [] T.k \in {"dict", "defaultdict", "ordereddict"} -> ExSet(T.kt) \cup ExSet(T.vt)
